@@ -20,25 +20,54 @@ NOT_DECIDED = "the verdict logic itself (that _asn1f_compare_tags / asn1f_fetch_
 ASSUMPTIONS = ["fatal status is -1, warning 1, success 0 (asn1fix_internal.h RET2RVAL)"]
 
 
+def is_fatal_call(e):
+    """FATAL(...) expands to arg->eh(1, fmt, ...): the fixer's error handler with severity 1"""
+    return e["k"] == "call" and e.get("slot") == "eh" and e.get("args") and e["args"][0].get("const") == 1
+
+
 def status_functions(prog):
-    out = set()
+    """int f(arg_t *, ...) in libasn1fix whose negative result means `a fatal diagnostic was issued`: the function
+    issues FATAL itself, or passes on / merges the status of such a function (least fixpoint)."""
+    cand = {}
     for f in prog.funcs.values():
-        if "libasn1fix/" not in f.relfile:
-            continue
-        if f.ret_type != "int" or not f.params:
+        if "libasn1fix/" not in f.relfile or f.ret_type != "int" or not f.params:
             continue
         if "arg_t *" in f.params[0]["type"] or "struct arg_s *" in f.params[0]["type"]:
-            out.add(f.key)
+            cand[f.key] = f
+    out = {k for k, f in cand.items() if any(is_fatal_call(e) for b, i, e in f.events())}
+    cg = prog.callgraph()
+    changed = True
+    while changed:
+        changed = False
+        for k, f in cand.items():
+            if k in out:
+                continue
+            retvars = set()
+            for b, i, e in f.returns():
+                ex = e.get("expr")
+                if ex:
+                    retvars |= {n[1] for n in walk(ex["tree"]) if n[0] == "var"}
+            for b, i, e, tg in cg.sites[k]:
+                if not any(t in out for t in tg):
+                    continue
+                if e.get("use") not in ("discarded", "voidcast"):
+                    out.add(k)
+                    changed = True
+                    break
     return out
 
 
 def classify_for(f):
+    ptr = f.ret_type.rstrip().endswith("*")
+
     def classify(b, i, e, env=None):
         env = env or {}
         ex = e.get("expr")
         if not ex:
             return "success"
         if "const" in ex:
+            if ptr:
+                return "fail" if ex["const"] == 0 else "success"
             return "fail" if ex["const"] < 0 else "success"
         t = strip_casts(ex["tree"])
         if is_var(t):
@@ -71,7 +100,8 @@ def r11_1(prog, tab):
             use = e.get("use")
             if (f.name, key) in exc:
                 r.exc(f, key, exc[(f.name, key)], e["line"])
-                siteok.setdefault((f.key, tuple(tg)), []).append(True)
+                for t in tg:
+                    siteok.setdefault((f.key, t, "callee" not in e), []).append(True)
                 continue
             if use in ("discarded", "voidcast"):
                 r.bad(f, key, "status of %s is discarded: a fatal diagnostic inside it does not fail the compilation" % key, e["line"])
@@ -99,8 +129,16 @@ def r11_1(prog, tab):
                         r.bad(f, key, "assuming %s returned -1 (fatal), control reaches the return at line %s (%s)%s" % (
                             key, re.get("line"), kind, " after the status variable was overwritten" if lost else ""), e["line"],
                             witness={"path": guards.path_lines(f, list(path))})
+            is_cb_site = "callee" not in e
             for t in tg:
-                siteok.setdefault((f.key, t), []).append(ok)
+                siteok.setdefault((f.key, t, is_cb_site), []).append(ok)
+            # a status function passed as a callback: the verdict of this site is the verdict of the edge caller -> callback
+            for a in e.get("args", []):
+                for n in walk(a.get("tree")):
+                    if n[0] == "fn":
+                        cf = prog.func(n[1])
+                        if cf is not None and cf.key in sf:
+                            siteok.setdefault((f.key, cf.key, "via:" + key), []).append(ok)
     return r, siteok, sf
 
 
@@ -110,9 +148,21 @@ def r11_2(prog, tab, siteok, sf):
     root = prog.require("asn1f_process")
     # edges that propagate: caller -> callee with at least one site ok and none bad? require: some site propagates
     good = collections.defaultdict(set)
-    for (caller, callee), oks in siteok.items():
-        if any(oks):
-            good[caller].add(callee)
+    cb_ok = set()
+    for (caller, callee, kind), oks in siteok.items():
+        if kind is True:
+            # dispatcher -> callback through its function-pointer parameter: usable only together with a via-edge
+            if any(oks):
+                cb_ok.add((caller, callee))
+        elif kind is False:
+            if any(oks):
+                good[caller].add(callee)
+    for (caller, callee, kind), oks in siteok.items():
+        if isinstance(kind, str) and kind.startswith("via:"):
+            disp = prog.func(kind[4:])
+            # every site passing this callback must propagate, and the dispatcher must merge its callback's status
+            if all(oks) and disp is not None and (disp.key, callee) in cb_ok:
+                good[caller].add(callee)
     for name in tab["checkers"]:
         f = prog.func(name)
         if f is None:
@@ -133,6 +183,8 @@ def r11_2(prog, tab, siteok, sf):
                 path.append(x)
                 x = prev[x]
             r.ok(f, "path-from-asn1f_process", "status-propagating call path: %s" % " -> ".join(reversed(path)), f.line)
+        elif f.key not in sf and cg.path([root.key], f.key):
+            r.ok(f, "path-from-asn1f_process", "applied on the path %s; the function issues no fatal diagnostic of its own (it cannot fail), so there is no status to propagate" % " -> ".join(cg.path([root.key], f.key)), f.line)
         else:
             anyp = cg.path([root.key], f.key)
             r.bad(f, "path-from-asn1f_process", "no call path from asn1f_process to %s on which every call's status propagates%s" % (
